@@ -35,7 +35,7 @@ func init() {
 			if tier == "quick" {
 				return 48
 			}
-			return 160
+			return 800
 		},
 		Batch:            4,
 		Workers:          8,
